@@ -58,7 +58,9 @@ def mk_seq(rng, desc, length):
             ops.append(["restart"])
         elif r < 0.8:
             ops.append(["copy"])
-        elif r < 0.92:
+        elif r < 0.86:
+            ops.append(["ruletext", rng.randrange(1 << 20), rng.randrange(1 << 20)])
+        elif r < 0.93:
             kind = rng.choice(["height", "weight", "coeff"])
             ops.append(["edit", kind, rng.randrange(1 << 20), rng.choice([0.5, 0.25, 0.75, 1.0])])
         else:
@@ -111,6 +113,10 @@ def toggle_target(e, d, what, pick):
     return e.output_variables[vi], d["outputs"][vi]
 
 
+def lock_free(d):
+    return not any(o["lock_previous"] for o in d["outputs"])
+
+
 def observe(e):
     return [float(np.take(ov.value, -1)) if ov.enabled else "disabled" for ov in e.output_variables]
 
@@ -138,7 +144,7 @@ def run_impl(desc, ops):
             E["inputs"] = list(op[1])
         elif op[0] == "process":
             got = proc(E["e"])
-            if E["clean"]:
+            if E["clean"] or (lock_free(E["d"]) and all(o["enabled"] for o in E["d"]["outputs"])):
                 # first process after construction / restart: must behave exactly like a freshly built engine
                 # (whose inputs are NaN unless they were set since)
                 f = G.build(E["d"])
@@ -158,6 +164,20 @@ def run_impl(desc, ops):
             engines.append({"e": c, "d": pycopy.deepcopy(E["d"]), "stream": list(E["stream"]), "obs": list(E["obs"]),
                             "inputs": E["inputs"], "clean": E["clean"], "fresh_pairs": []})
             cur = len(engines) - 1
+        elif op[0] == "ruletext":
+            # rewrite a rule (another term in its first conclusion), then restart: the rule must be reloaded
+            d = E["d"]
+            cands = [(bi, ri) for bi, b in enumerate(d["blocks"]) for ri, _ in enumerate(b["rules"])]
+            bi, ri = cands[op[1] % len(cands)]
+            rd = d["blocks"][bi]["rules"][ri]
+            ov = next(o for o in d["outputs"] if o["name"] == rd["concls"][0]["var"])
+            rd["concls"][0]["term"] = ov["terms"][op[2] % len(ov["terms"])]["name"]
+            E["e"].rule_blocks[bi].rules[ri].text = G.rule_text(rd)
+            E["e"].restart()
+            E["stream"].append(["reconfig", G.engine_sx(d)])
+            E["stream"].append(["restart"])
+            E["inputs"] = None
+            E["clean"] = True
         elif op[0] == "edit":
             if apply_edit(E["e"], E["d"], op):
                 E["stream"].append(["reconfig", G.engine_sx(E["d"])])
@@ -167,7 +187,13 @@ def run_impl(desc, ops):
             obj.enabled = not old
             dd["enabled"] = not old
             E["stream"].append(["reconfig", G.engine_sx(E["d"])])
-            E["obs"].append(proc(E["e"]))
+            got = proc(E["e"])
+            if lock_free(E["d"]) and all(o["enabled"] for o in E["d"]["outputs"]):
+                f = G.build(E["d"])
+                for iv, v in zip(f.input_variables, E["inputs"] or [math.nan] * len(f.input_variables)):
+                    iv.value = v
+                E["fresh_pairs"].append((got, proc(f)))
+            E["obs"].append(got)
             E["stream"].append(["process"])
             E["clean"] = False
             obj.enabled = old
@@ -180,9 +206,6 @@ def run_impl(desc, ops):
     return engines
 
 
-def lock_free(d):
-    return not any(o["lock_previous"] for o in d["outputs"])
-
 
 def oracle(case):
     """history-freeness / restart / copy on the implementation itself, against freshly built engines"""
@@ -191,8 +214,8 @@ def oracle(case):
     for k, E in enumerate(engines):
         for got, want in E["fresh_pairs"]:
             if len(want) != len(got) or not all(c01.feq(a, b, 1e-12) if not isinstance(a, str) else a == b for a, b in zip(got, want)):
-                return False, (f"engine object {k}: the first process after restart() gives {got}, a freshly built engine with the "
-                               f"same configuration and inputs gives {want}")
+                return False, (f"engine object {k}: a process step (after restart(), or with lock-previous off) gives {got}, a "
+                               f"freshly built engine with the same configuration and inputs gives {want}")
         # the final process of every engine object (lock-previous off): equals a fresh engine of its (edited)
         # description processing the same inputs once
         if lock_free(E["d"]) and E["inputs"] is not None and all(o["enabled"] for o in E["d"]["outputs"]):
@@ -224,11 +247,21 @@ def session_fragile(case, base):
                     elif not c01.feq(a, b, 1e-9):
                         return True
     # single-step fragility (tiny degrees, threshold ties, Tsukamoto singularities) at every processed input
+    rows_seen = [o[1] for o in case["ops"] if o[0] == "set"]
     for E in base:
-        if E["inputs"] is not None:
-            o = c01.run_impl(E["d"], [E["inputs"]])[0]
-            if c01.is_fragile(E["d"], E["inputs"], o):
+        for row in rows_seen:
+            o = c01.run_impl(E["d"], [row])[0]
+            if c01.is_fragile(E["d"], row, o):
                 return True
+    # degrees of the exact model that are positive but below 1e-12 (float evaluation underflows / absorbs them)
+    lines = [C.sx(["process", G.engine_sx(E["d"]), rows_seen]) for E in base if rows_seen]
+    try:
+        for line in C.Driver().eval(lines):
+            m = C.parse_sx(line)
+            if any(mr != "error" and c01.model_tiny(mr) for mr in m[0]):
+                return True
+    except Exception:  # noqa: BLE001
+        pass
     return False
 
 
